@@ -57,4 +57,26 @@ def timeBase (n : Nat) : Integrate.TimeBase → List Rat
 /-- … or, when the input time series is given, its first `n` epochs. -/
 def timeBaseFromInput (n : Nat) (epochs : List Rat) : List Rat := epochs.take n
 
+/-! ### Per-component series -/
+
+/-- One collected series (`_retrieve_time_series_data_from_components`): the component's name,
+its switchboard / shaft-line number, its type, and the series. -/
+structure SeriesItem where
+  name : String
+  node : Nat
+  type : String
+  power : List Rat
+  deriving Repr, DecidableEq
+
+def SeriesItem.key (s : SeriesItem) : String × Nat × String := (s.name, s.node, s.type)
+
+/-- The series attached to the detail record of (`name`, `node`, `type`): the first collected item
+with that name, node number and component type. -/
+def seriesFor (items : List SeriesItem) (name : String) (node : Nat) (type : String) : Option SeriesItem :=
+  items.find? fun s => s.name = name && s.node = node && s.type = type
+
+/-- As found (before the repair of D22): looked up by name and node number only. -/
+def seriesForLegacy (items : List SeriesItem) (name : String) (node : Nat) : Option SeriesItem :=
+  items.find? fun s => s.name = name && s.node = node
+
 end Feems.Export
